@@ -258,7 +258,8 @@ func (a *application) terminate(pid gen.PID, reason error) {
 		return
 	}
 	if a.stopped != nil {
-		close(a.stopped)
+		// a stop request is released when the Terminate callback is done
+		defer close(a.stopped)
 	}
 
 	a.started = 0
